@@ -60,9 +60,14 @@ def oracle_ecma119(ctx, res):
     except Exception as e:
         return out     # C01's clause
     a = {}
+    mine2 = dict(mine['iso'])
     for p, v in api.get('iso', {}).items():
+        if v[0] == 'cl':
+            # Rock Ridge relocation placeholder: the API resolves it to the relocated directory
+            mine2.pop(p, None)
+            continue
         a[p] = v
-    diffs = compare(mine, {'iso': a}, set(), set())
+    diffs = compare({'iso': mine2}, {'iso': a}, set(), set())
     if diffs:
         out.append({'clause': 'independently recovered tree equals what the library API reports', 'cls': _cls(diffs[0]), 'msg': '; '.join(diffs[:6])})
     if res is not None:
@@ -380,7 +385,9 @@ def oracle_boot(ctx, res):
             out.append({'clause': 'entries carry the requested load size', 'cls': 'load size', 'msg': 'entry %d sector count %d, expected %d' % (i, be['sector_count'], want)})
         if be['load_seg'] != me['boot_load_seg']:
             out.append({'clause': 'entries carry the requested load segment', 'cls': 'load seg', 'msg': 'entry %d' % i})
-        if i > 0 and be['platform'] != (0xef if me['efi'] else me['platform_id']) and be['platform'] != me['platform_id']:
+        if i > 0 and not me['efi'] and not me.get('platform_explicit'):
+            pass      # no platform requested for this section: the catalog's platform is inherited
+        elif i > 0 and be['platform'] != (0xef if me['efi'] else me['platform_id']) and be['platform'] != me['platform_id']:
             out.append({'clause': 'entries carry the requested platform', 'cls': 'section platform', 'msg': 'entry %d platform %s requested %s efi=%s' % (i, be['platform'], me['platform_id'], me['efi'])})
         # load RBA = where the file's bytes start
         names = [p for ns, p in m.names_of(me['bid']) if ns == 'iso']
@@ -390,6 +397,8 @@ def oracle_boot(ctx, res):
                 out.append({'clause': 'load RBA is the sector where the boot file starts', 'cls': 'rba', 'msg': 'entry %d RBA %d, file %s at %d' % (i, be['rba'], names[0], ext)})
         stored = img[be['rba'] * SECTOR:be['rba'] * SECTOR + len(data)]
         exp = data
+        if m.blobs[me['bid']].get('patched') and not m.blobs[me['bid']]['bit']:
+            exp = data[:8] + stored[8:64] + data[64:]     # patched in an earlier generation (see model.op_REOPEN)
         if m.blobs[me['bid']]['bit']:
             exp = data[:8] + stored[8:64] + data[64:]
             t = rboot.boot_info_table(stored)
